@@ -41,7 +41,8 @@ def floors(tier):
     return {"evals": n * 3, "distinct": n // 4,
             "counters": {"transform_entries_compared": n * 6, "score_checks": n // 2,
                          "mahalanobis_checks": n // 2, "params_unchanged_checks": n * 2,
-                         "repeat_checks": n // 2, "multi_sensor_programs": n // 4}}
+                         "repeat_checks": n // 2, "multi_sensor_programs": n // 4,
+                         "transform_after_set_params_checks": n // 2}}
 
 
 def setup_worker(ctx):
@@ -191,6 +192,30 @@ def run_unit(unit, ctx):
         R.stats.inc("params_unchanged_checks")
         if params_snapshot(ad) != before:
             R.add([K.V("score:changes-params", "mahalanobis/score changed the estimator's parameters", **w)])
+        # a sequence on the same estimator object: change a configuration field through set_params, then
+        # transform again; the result must be the NIS of the *re-exported* filter (no stale compiled state)
+        k2 = rng.choice([v for v in (None, 0.5, 1.5, 4.0) if v != k])
+        ad.set_params(innovation_filtering=k2)
+        Xb = X.copy()
+        Xb[1::3, len(defn["control"]):] *= 8.0  # some outlier rows so that the threshold matters
+        try:
+            Tb = np.asarray(ad.transform(Xb.copy()), dtype=float)
+            Hb, condb = by_hand(ad.export_python(), defn, Xb)
+            R.stats.inc("transform_after_set_params_checks")
+            tolb = 1e-9 * max(1.0, condb)
+            if Tb.shape != Hb.shape or not np.all(np.abs(Tb - Hb) <= tolb * np.maximum(1.0, np.abs(Hb))):
+                R.add([K.V("transform:stale-after-set_params",
+                           f"after set_params(innovation_filtering={k2!r}) transform is not the NIS of the exported filter "
+                           f"(first differing row {int(np.argmax(np.any(np.abs(Tb - Hb) > tolb * np.maximum(1.0, np.abs(Hb)), axis=1))) if Tb.shape == Hb.shape else 'shape'})",
+                           k_before=k, k_after=k2, **w)])
+            pn2 = {kk: vv * 3.0 for kk, vv in ad.get_params()["process_noise"].items()}
+            ad.set_params(process_noise=pn2)
+            Tc = np.asarray(ad.transform(Xb.copy()), dtype=float)
+            Hc, condc = by_hand(ad.export_python(), defn, Xb)
+            if Tc.shape != Hc.shape or not np.all(np.abs(Tc - Hc) <= 1e-9 * max(1.0, condc) * np.maximum(1.0, np.abs(Hc))):
+                R.add([K.V("transform:stale-after-set_params", "after set_params(process_noise=...) transform is not the NIS of the exported filter", **w)])
+        except AssertionError:
+            R.stats.inc("sequence_cut_covariance_assertion")
         if not R.samples:
             R.samples.append({"definition": K.brief_defn(defn), "X": X.tolist()[:4], "k": k,
                               "transform": T.tolist()[:4], "by_hand": H.tolist()[:4], "score": float(total)})
